@@ -92,3 +92,12 @@ def fill(claim, na):
       'Translation validation between two static artifacts: the instruction printed for a line (accessibility text of the IRS template box it is mapped to; cited transcriptions for the two 1040 worksheets and the NC D-400 face, whose templates carry no text) parsed by a sentence grammar and armed only when the whole arithmetic sentence parses and all operands are implemented lines (about 445 armed lines over three years: add/combine 150, subtract 140, smaller-of 34, multiply 55, carry/copy 45, conditional subtract 12), against the linear normal form of every value-returning path of the line definition. Wrong operand, sign, rate, dropped summand or floor, wrong carried line are decided on every path.',
       'Trusted: sa/instr.py grammar, sa/linform.py normal forms, sa/lineabs.py; worksheet wording in sa/data/worksheets/*.txt (from the published instructions, typed from memory), three frozen path exceptions with reasons in sa/data/c02_exceptions.json. Not decided: about 645 lines whose instruction is prose ("see instructions", per-payer listings, status amounts), NC schedules, numeric equality on concrete returns.',
       'translation validation: instruction grammar vs linear normal form of abstractly interpreted definitions', 'DESIGN.md §3 C02')
+
+    c('C15',
+      'Balance identities decided on linear normal forms of all paths (overpayment/amount owed are the two signed halves of payments minus tax under complementary guards, refund + applied = overpayment; NC likewise: 6 identities x 3 years) and non-negativity by abstract interpretation in a sign domain with symbolic upper bounds as a greatest fixed point over the line graph: about 510 lines per year of the frozen list must stay provably non-negative for non-negative inputs.',
+      'Trusted: sa/signs.py, sa/linform.py, sa/lineabs.py; frozen lists sa/data/nonneg_lines.json (lines provable on the confirmed baseline) and balance_identities.json. Not armed (listed in the evidence): lines whose sign depends on AGI being non-negative and the capital-gain / Form 8606 / child-credit worksheets whose non-negativity needs relational case analysis; rounding effects are not modelled.',
+      'abstract interpretation (sign + upper-bound domain, greatest fixed point) + linear identities', 'DESIGN.md §3 C15')
+    c('C16',
+      'Two of the four relations plus a sibling rule: renumbering invariance as a symmetry rule on every definition (index only in instance position, only permutation-invariant combination, fixed positions only in the frozen per-payer listing lines); taxpayer/spouse atom symmetry of every definition that treats both; withholding one-for-one: each source enters its line and each link of 25a/b/c -> 25d -> 33 with coefficient exactly 1 on every value path, and total tax and its ancestors lie outside the taint closure of the withholding sources (with the C15 identity this gives refund-minus-owed moving dollar for dollar).',
+      'Trusted: sa/lineabs.py, sa/linform.py, sa/symmetry.py; frozen tables listing_lines.json, withholding_chain.json, symmetry_exceptions.json (one accepted asymmetry with reason). NOT decided and not claimed: "more wages never lower total tax" and "a larger deduction never raises it" (monotonicity through data-dependent switches); float re-association under renumbering.',
+      'symmetry / taint / linear-coefficient rules over abstractly interpreted definitions', 'DESIGN.md §3 C16')
